@@ -646,6 +646,7 @@ def check(facts, rep, tier, cfg):
     rep.rule("C09.S7", "no new process-wide mutable state (static cell / lock / once-cell) in the files this property is anchored in")
     import whomay
     whomay.check_new_statics(facts, rep, "C09.S7", "C09")
+    whomay.check_new_trait_methods(facts, rep, "C09.S7", "C09")
 
 
 THOROUGH_CONFIGS = ["mux-nodefault", "mux-std-only", "mux-yawc"]
